@@ -124,3 +124,32 @@ func VP_C12_Scan() {
 	vp.Assert(next == len(sp.Zs), "every slab pair was delivered")
 	vp.Reach("end")
 }
+
+// VP_C12_BlockBounds: the box handed to region filters encloses every lattice
+// point of the block.
+func VP_C12_BlockBounds() {
+	n := vp.Param("n")
+	sp := &squareSpacer{}
+	for i := 0; i < n; i++ {
+		sp.Xs = append(sp.Xs, vp.Float64("x"))
+		sp.Ys = append(sp.Ys, vp.Float64("y"))
+		sp.Zs = append(sp.Zs, vp.Float64("z"))
+		if i > 0 {
+			vp.Assume(vp.All(sp.Xs[i-1] < sp.Xs[i], sp.Ys[i-1] < sp.Ys[i], sp.Zs[i-1] < sp.Zs[i]))
+		}
+	}
+	b := mcBlock{spacer: sp}
+	for i := 0; i < 3; i++ {
+		b.min[i] = vp.Int("min", 0, n-1)
+		b.max[i] = vp.Int("max", 0, n-1)
+		vp.Assume(b.min[i] < b.max[i])
+	}
+	eps := vp.Float64("eps")
+	vp.Assume(eps >= 0)
+	r := b.Bounds(eps)
+	ix, iy, iz := vp.Int("ix", 0, n-1), vp.Int("iy", 0, n-1), vp.Int("iz", 0, n-1)
+	vp.Assume(vp.All(ix >= b.min[0], ix <= b.max[0], iy >= b.min[1], iy <= b.max[1], iz >= b.min[2], iz <= b.max[2]))
+	px, py, pz := sp.Xs[ix], sp.Ys[iy], sp.Zs[iz]
+	vp.Assert(vp.All(r.MinVal.X <= px, px <= r.MaxVal.X, r.MinVal.Y <= py, py <= r.MaxVal.Y, r.MinVal.Z <= pz, pz <= r.MaxVal.Z), "block bounds enclose every lattice point of the block")
+	vp.Reach("end")
+}
